@@ -256,6 +256,13 @@ theorem seek_start_limit (fix : Bool) (f : File) (unc : Codec) (m : MR) (b o : N
         split <;> cases fix <;> exact ⟨rfl, rfl⟩
 
 
+/-- the position guard of `sqfs_meta_reader_read` (442364d) is dead when the cursor is inside the loaded data -/
+theorem readStep_of_le (fix : Bool) (f : File) (unc : Codec) (m : MR) (size : Nat) (h : m.offset ≤ m.dataUsed) :
+    readStep fix f unc m size = readStepBody fix f unc m size := by
+  unfold readStep
+  have : ¬ (fix = true ∧ m.offset > m.dataUsed) := by omega
+  simp only [this, if_false]
+
 theorem refill_coherent {f : File} {unc : Codec} (hc : CodecOK unc) {m : MR} (hm : Coherent f unc m) :
     Coherent f unc (refill true f unc m).2.1 := by
   unfold refill
@@ -295,7 +302,8 @@ theorem readStep_done {f : File} {unc : Codec} (hc : CodecOK unc) {m m' : MR} {s
     split
     · exact seek_status_lt hc _ _ _
     · exact zero_lt_crash
-  unfold readStep at h
+  rw [readStep_of_le _ _ _ _ _ hm.1.1] at h
+  unfold readStepBody at h
   generalize refill true f unc m = r at *
   obtain ⟨st1, m1, d1⟩ := r
   simp only at h hr hok hst
@@ -319,7 +327,8 @@ theorem readStep_more {f : File} {unc : Codec} (hc : CodecOK unc) {m m' : MR} {s
     Coherent f unc m' ∧ size' < size := by
   have hr := refill_coherent hc hm
   have hok := refill_ok hc hm
-  unfold readStep at h
+  rw [readStep_of_le _ _ _ _ _ hm.1.1] at h
+  unfold readStepBody at h
   generalize refill true f unc m = r at *
   obtain ⟨st1, m1, d1⟩ := r
   simp only at h hr hok
@@ -511,13 +520,15 @@ def StepSim : StepR → StepR → Prop
   | _, _ => False
 
 theorem stepSim_of_refill {f : File} {unc : Codec} {m₁ m₂ : MR} (size : Nat)
+    (g1 : m₁.offset ≤ m₁.dataUsed) (g2 : m₂.offset ≤ m₂.dataUsed)
     (e1 : (refill true f unc m₁).1 = (refill true f unc m₂).1)
     (e2 : Sim (refill true f unc m₁).2.1 (refill true f unc m₂).2.1)
     (e3 : (refill true f unc m₁).2.2 = (refill true f unc m₂).2.2)
     (hok : (refill true f unc m₁).1 = 0 →
       (refill true f unc m₁).2.1.offset + (refill true f unc m₁).2.2 ≤ (refill true f unc m₁).2.1.dataUsed) :
     StepSim (readStep true f unc m₁ size) (readStep true f unc m₂ size) := by
-  unfold readStep
+  rw [readStep_of_le _ _ _ _ _ g1, readStep_of_le _ _ _ _ _ g2]
+  unfold readStepBody
   generalize refill true f unc m₁ = r₁ at *
   generalize refill true f unc m₂ = r₂ at *
   obtain ⟨st1, a, d1⟩ := r₁
@@ -544,10 +555,10 @@ theorem stepSim_of_refill {f : File} {unc : Codec} {m₁ m₂ : MR} (size : Nat)
     exact ⟨rfl, e2⟩
 
 theorem sim_readStep {f : File} {unc : Codec} (hc : CodecOK unc) {m₁ m₂ : MR} (h : Sim m₁ m₂)
-    (c₁ : Coherent f unc m₁) (_c₂ : Coherent f unc m₂) (size : Nat) :
+    (c₁ : Coherent f unc m₁) (c₂ : Coherent f unc m₂) (size : Nat) :
     StepSim (readStep true f unc m₁ size) (readStep true f unc m₂ size) := by
   obtain ⟨e1, e2, e3⟩ := sim_refill (f := f) (unc := unc) h
-  exact stepSim_of_refill size e1 e2 e3 (fun h0 => (refill_ok hc c₁ h0).1)
+  exact stepSim_of_refill size c₁.1.1 c₂.1.1 e1 e2 e3 (fun h0 => (refill_ok hc c₁ h0).1)
 
 theorem sim_readLoop {f : File} {unc : Codec} (hc : CodecOK unc) :
     ∀ (k : Nat) (m₁ m₂ : MR) (size : Nat) (acc : Bytes), Sim m₁ m₂ → Coherent f unc m₁ → Coherent f unc m₂ →
@@ -599,6 +610,10 @@ theorem readStep_start_limit (fix : Bool) (f : File) (unc : Codec) (m : MR) (siz
     | .more m' _ _ => m'.start = m.start ∧ m'.limit = m.limit := by
   have hr := refill_start_limit fix f unc m
   unfold readStep
+  by_cases hg : fix = true ∧ m.offset > m.dataUsed
+  · simp only [hg, and_self, if_true]
+  simp only [hg, if_false]
+  unfold readStepBody
   generalize refill fix f unc m = r at *
   obtain ⟨st1, m1, d1⟩ := r
   simp only at hr ⊢
@@ -753,7 +768,7 @@ theorem read_from_block_end {f : File} {unc : Codec} (hc : CodecOK unc) {m m3 : 
   have h3o : m3.offset = 0 := by rw [← hsim.2.2.2.2.2.1]; exact ho
   have h3d : m3.dataUsed ≠ 0 := by rw [← hsim.2.2.2.2.1]; omega
   have hss : StepSim (readStep true f unc m n) (readStep true f unc m3 n) := by
-    apply stepSim_of_refill
+    apply stepSim_of_refill _ cm.1.1 c3.1.1
     · rw [refill_at_end _ _ _ hend, refill_at_start _ _ _ h3o h3d]; exact hs0
     · rw [refill_at_end _ _ _ hend, refill_at_start _ _ _ h3o h3d]; exact hsim
     · rw [refill_at_end _ _ _ hend, refill_at_start _ _ _ h3o h3d]; exact hsim.2.2.2.2.1
@@ -826,45 +841,5 @@ theorem seek_hit_self {f : File} {unc : Codec} {m : MR} (_hne : m.offset ≠ m.d
     by_cases ho : m.offset ≥ m.dataUsed
     · simp only [ho, if_true] at h; exact absurd h (by decide)
     · simp only [ho, if_false]
-
-/-- **`read_value` restores the position.**  A detour (seek elsewhere, read, seek back to the remembered
-`get_position`) that succeeds leaves a reader from which every continuation reads exactly what it would have
-read without the detour, and which reports the remembered position. -/
-theorem oolDetour_restores {f : File} {unc : Codec} (hc : CodecOK unc) {m : MR} (cm : Coherent f unc m)
-    (b o n : Nat) (hok : (oolDetour true f unc m b o n).1 = 0) :
-    getPos (oolDetour true f unc m b o n).2.2 = getPos m ∧
-    ∀ ns, answerReads true f unc (oolDetour true f unc m b o n).2.2 ns = answerReads true f unc m ns := by
-  unfold oolDetour at hok ⊢
-  simp only at hok ⊢
-  by_cases h1 : (seek true f unc m b o).1 = 0
-  · simp only [h1, ne_eq, not_true_eq_false, if_false] at hok ⊢
-    by_cases h2 : (read true f unc (seek true f unc m b o).2 n).1 = 0
-    · simp only [h2, ne_eq, not_true_eq_false, if_false] at hok ⊢
-      have cs := seek_coherent hc cm b o
-      have cr := read_coherent hc cs n
-      have hsl := seek_start_limit true f unc m b o
-      have hrl := readLoop_start_limit true f unc n (seek true f unc m b o).2 n []
-      have hstart : (read true f unc (seek true f unc m b o).2 n).2.2.start = m.start := hrl.1.trans hsl.1
-      have hlimit : (read true f unc (seek true f unc m b o).2 n).2.2.limit = m.limit := hrl.2.trans hsl.2
-      generalize (read true f unc (seek true f unc m b o).2 n).2.2 = r at *
-      have c3 := seek_coherent hc cr (getPos m).1 (getPos m).2
-      have hv := seek_sim_of_coherent hc cr cm hstart hlimit (getPos m).1 (getPos m).2
-      refine ⟨seek_getPos hc hok, fun ns => ?_⟩
-      by_cases hend : m.offset = m.dataUsed
-      · have hp : getPos m = (m.nextBlock, 0) := by unfold getPos; simp only [hend, if_true]
-        rw [hp] at hok hv c3 ⊢
-        simp only at hok hv c3 ⊢
-        have hm0 : (seek true f unc m m.nextBlock 0).1 = 0 := hv.1.symm.trans hok
-        exact (answerReads_from_block_end hc ns m _ cm c3 hend hm0 (hv.2 hok).symm).symm
-      · have hp : getPos m = (m.tag, m.offset) := by unfold getPos; simp only [hend, if_false]
-        rw [hp] at hok hv c3 ⊢
-        simp only at hok hv c3 ⊢
-        have hm0 : (seek true f unc m m.tag m.offset).1 = 0 := hv.1.symm.trans hok
-        have hself := seek_hit_self hend hm0
-        have hsim := hv.2 hok
-        rw [hself] at hsim
-        exact sim_answerReads hc ns _ _ hsim c3 cm
-    · simp only [h2, ne_eq, not_false_eq_true, if_true] at hok
-  · simp only [h1, ne_eq, not_false_eq_true, if_true] at hok
 
 end Sqfs.MetaReader
